@@ -33,4 +33,5 @@ ITEMS = [
     Item('get_iterator', BA.sym_get_iterator, [], BA.B + 'datastream_processor.py::DataStreamProcessor.get_iterator'),
     Item('get_res', BA.sym_get_res, [], BA.B + 'datastream_processor.py::DataStreamProcessor.get_res'),
     Item('ResourceWrapper', BA.sym_resource_wrapper, [], BA.B + 'resource_wrapper.py::ResourceWrapper.__init__'),
+    Item('core-objects', BA.sym_base_objects, [], BA.B + 'datastream.py::DataStream.merge_stats'),
 ]
